@@ -84,7 +84,7 @@ def randint(a: int, b: int) -> int:
     while True:
         x = _rng.next()
         if x < limit:
-            return x % w
+            return a + x % w
 
 
 def choice(cand: Sequence[Any]) -> Any:
